@@ -185,25 +185,72 @@ def model_failures(seed, n):
         t = 5.0
         pos = pd.DataFrame([[pva.lat + 1e-5, pva.lon - 1e-5, pva.alt + 25.0]], index=[t], columns=LLA_COLS)
         velm = pd.DataFrame([[pva.VN + 0.3, pva.VE - 0.2, 4.0]], index=[t], columns=VEL_COLS)
-        for name, m in (('Position', measurements.Position(pos, 2.0, lever)),
-                        ('NedVelocity', measurements.NedVelocity(velm, 0.5, lever))):
-            z, Hm, R = m.compute_matrices(t, pva, em)
-            z3, H3, R3 = m.compute_matrices(t, pva, em3)
+        body = pd.DataFrame([[pva.VN - 0.1, 0.2, -0.3]], index=[t], columns=['VX', 'VY', 'VZ'])
+
+        def stored(df, j):
+            """the same labelled data stored in another column order (odd j: plus an unrelated column)"""
+            if j == 0:
+                return df
+            cols = list(df.columns)
+            cols = cols[j % 3:] + cols[:j % 3] if j % 3 else cols[::-1]
+            out = df.copy()
+            if j % 2:
+                out['quality'] = 7.0
+                cols.insert(j % 4, 'quality')
+            return out[cols]
+
+        def other_vertical(df, col):
+            out = df.copy()
+            out[col] = out[col] + 123.0
+            return out
+
+        makers = (('Position', lambda df: measurements.Position(df, 2.0, lever), pos, 'alt'),
+                  ('NedVelocity', lambda df: measurements.NedVelocity(df, 0.5, lever), velm, 'VD'))
+        for name, mk, df, vcol in makers:
+            z, Hm, R = mk(df).compute_matrices(t, pva, em)
+            z3, H3, R3 = mk(df).compute_matrices(t, pva, em3)
             z, z3 = np.asarray(z, dtype=float), np.asarray(z3, dtype=float)
             if z.shape != (2,) or np.shape(Hm) != (2, 7) or np.shape(R) != (2, 2):
                 fails.append((f"{name}.compute_matrices (2D) shapes z{z.shape} H{np.shape(Hm)} R{np.shape(R)}; "
                               f"the vertical row must be dropped", rec))
-            elif not same(z, z3[:2]) or not same(np.asarray(R), np.asarray(R3)[:2, :2]):
+                continue
+            if not same(z, z3[:2]) or not same(np.asarray(R), np.asarray(R3)[:2, :2]):
                 fails.append((f"{name}.compute_matrices (2D): z / R are not the horizontal part of the 3D ones", rec))
-            if m.compute_matrices(t + 1, pva, em) is not None:
+            # the 2 rows are the north / east differences: independent of the measured vertical component and
+            # of the order in which the labelled columns of the measurement table are stored
+            for j in range(1, 5):
+                for what, dfv in ((f"columns stored as {list(stored(df, j).columns)}", stored(df, j)),
+                                  (f"measured {vcol} changed, columns {list(stored(df, j - 1).columns)}",
+                                   stored(other_vertical(df, vcol), j - 1))):
+                    zz, HH, RR = mk(dfv).compute_matrices(t, pva, em)
+                    zz = np.asarray(zz, dtype=float)
+                    if zz.shape != (2,) or not same(zz, z) or not same(np.asarray(HH), np.asarray(Hm)) or \
+                            not same(np.asarray(RR), np.asarray(R)):
+                        fails.append((f"{name}.compute_matrices (2D) with {what}: z = {zz.tolist()} instead of the "
+                                      f"north / east differences {z.tolist()} (vertical row not dropped)",
+                                      dict(rec, variant=j)))
+                        break
+            if mk(df).compute_matrices(t + 1, pva, em) is not None:
                 fails.append((f"{name}.compute_matrices returned data at a time without measurement", rec))
+        zb, Hb, Rb = measurements.BodyVelocity(body, 0.2).compute_matrices(t, pva, em)
+        for j in range(1, 4):
+            z2, H2, R2 = measurements.BodyVelocity(stored(body, j), 0.2).compute_matrices(t, pva, em)
+            if not same(np.asarray(z2, dtype=float), np.asarray(zb, dtype=float)) or np.shape(H2) != (3, 7):
+                fails.append((f"BodyVelocity.compute_matrices (2D) depends on the storage order of the labelled "
+                              f"columns {list(stored(body, j).columns)}", dict(rec, variant=j)))
+                break
     return fails
 
 
 # ---------------------------------------------------------------------------
 # (4) the filters on a small simulated data set
 
-def filter_failures(seed, n_samples=300):
+def _flag2d(seed):
+    """with_altitude = False spelled as bool / numpy.bool_ / int"""
+    return [False, np.False_, 0][seed % 3]
+
+
+def filter_failures(seed, n_samples=300, compare=False):
     from pyins import filters, sim, strapdown, measurements, inertial_sensor, transform
     fails = []
     rec = dict(kind='filter', seed=seed, n_samples=n_samples)
@@ -214,9 +261,18 @@ def filter_failures(seed, n_samples=300):
     traj_true, imu_true = sim.generate_sine_velocity_motion(
         0.5 * dt, total, [rng.uniform(-60, 60), rng.uniform(-170, 170), rng.uniform(0, 2000)], vmean,
         [3, 3, 1.5], velocity_change_period=10, sensor_type='rate')
-    pos = measurements.Position(sim.generate_position_measurements(traj_true.iloc[1::40], 1.0, rng), 1.0,
-                                None if seed % 2 else [0.5, -0.3, 0.2])
-    vel = measurements.NedVelocity(sim.generate_ned_velocity_measurements(traj_true.iloc[11::40], 0.3, rng), 0.3)
+    pos_df = sim.generate_position_measurements(traj_true.iloc[1::40], 1.0, rng)
+    vel_df = sim.generate_ned_velocity_measurements(traj_true.iloc[11::40], 0.3, rng)
+    lever = None if seed % 2 else [0.5, -0.3, 0.2]
+    pos_c, vel_c = measurements.Position(pos_df, 1.0, lever), measurements.NedVelocity(vel_df, 0.3)
+    permuted = (seed // 3) % 2 == 1                    # measurement tables stored in another column order
+    if permuted:
+        pos = measurements.Position(pos_df[['alt', 'lon', 'lat']], 1.0, lever)
+        vel = measurements.NedVelocity(vel_df[['VE', 'VN', 'VD']], 0.3)
+    else:
+        pos, vel = pos_c, vel_c
+    flag = _flag2d(seed)
+    rec = dict(rec, with_altitude=repr(flag), permuted_measurement_columns=permuted)
     gyro_model = inertial_sensor.EstimationModel(bias_sd=100 * transform.DH_TO_RS, noise=1 * transform.DRH_TO_RRS)
     accel_model = inertial_sensor.EstimationModel(bias_sd=0.1, noise=1.0 / 60)
     imu = imu_true.iloc[::2]
@@ -225,7 +281,7 @@ def filter_failures(seed, n_samples=300):
     initial = sim.perturb_pva(traj_true.iloc[0], pva_error)
     initial['VD'] = 1.25                               # supplied vertical velocity is ignored in 2D
     res = filters.run_feedback_filter(initial, 10, 2, 1.0, 5.0, increments, gyro_model, accel_model,
-                                      measurements=[pos, vel], time_step=0.5, with_altitude=False)
+                                      measurements=[pos, vel], time_step=0.5, with_altitude=flag)
     tr = res.trajectory
     if not np.all(tr['VD'].values == 0.0):
         bad = np.flatnonzero(tr['VD'].values != 0.0)
@@ -243,16 +299,22 @@ def filter_failures(seed, n_samples=300):
     if any(s[1] != 2 for s in ninnov.values() if s[0] > 0):
         fails.append((f"feedback filter (2D): innovations are not 2-dimensional {ninnov}", rec))
     # feedforward: sd only (the property does not speak about its trajectory)
-    it = strapdown.Integrator(initial, with_altitude=False)
+    if compare and (permuted or flag is not False):
+        ref = filters.run_feedback_filter(initial, 10, 2, 1.0, 5.0, increments, gyro_model, accel_model,
+                                          measurements=[pos_c, vel_c], time_step=0.5, with_altitude=False)
+        if not same(ref.trajectory.values, tr.values):
+            fails.append(("feedback filter (2D): the trajectory depends on the storage order of the measurement "
+                          "columns / on how with_altitude=False is spelled", rec))
+    it = strapdown.Integrator(initial, with_altitude=flag)
     it.integrate(increments)
     ff = filters.run_feedforward_filter(it.trajectory, it.trajectory, 10, 2, 1.0, 5.0, gyro_model, accel_model,
-                                        measurements=[pos, vel], time_step=0.5, with_altitude=False)
+                                        measurements=[pos, vel], time_step=0.5, with_altitude=flag)
     for col in ('down', 'VD'):
         v = ff.trajectory_sd[col].values
         if not np.all(v == 0.0):
             fails.append((f"feedforward filter (2D): trajectory_sd['{col}'] not exactly zero: max {np.nanmax(np.abs(v))!r}", rec))
     info = dict(rows=len(tr), epochs=sum(s[0] for s in ninnov.values()), sd_rows=len(res.trajectory_sd),
-                ff_rows=len(ff.trajectory_sd))
+                ff_rows=len(ff.trajectory_sd), with_altitude=repr(flag), permuted_measurement_columns=permuted)
     return fails, info
 
 
@@ -293,9 +355,10 @@ def numeric(r, rng, quick):
     cov['model_points'] = 40 if quick else 600
     infos = []
     for k in range(2 if quick else 8):
-        seed = rng.randrange(2 ** 30)
+        # seed % 3 selects the spelling of with_altitude=False, (seed // 3) % 2 the permuted measurement tables
+        seed = 6 * rng.randrange(2 ** 26) + (4 if k == 0 else 5 if k == 1 else rng.randrange(6))
         try:
-            ff, info = filter_failures(seed, 300 if (quick or k % 2) else 800)
+            ff, info = filter_failures(seed, 300 if (quick or k % 2) else 800, compare=(k == 0 or not quick))
         except Exception as e:
             ff, info = [(f"filters raised {type(e).__name__}: {e}", dict(kind='filter', seed=seed, n_samples=300))], {}
         infos.append(info)
@@ -401,7 +464,7 @@ def replay(obj):
         print([w for w, _ in f] or "holds")
         return 1 if f else 0
     if kind == 'filter':
-        f, info = filter_failures(rep['seed'], rep.get('n_samples', 300))
+        f, info = filter_failures(rep['seed'], rep.get('n_samples', 300), compare=True)
         print(info)
         print([w for w, _ in f] or "holds")
         return 1 if f else 0
